@@ -42,10 +42,13 @@ REQUIRED_THEOREMS = [
     "C05_vertexId3_is_cell_min", "C05_oneSew3_cells", "C05_oneUnsew3_cells",
     "C05_edgeId3_is_cell_min", "C05_twoSew3_cells", "C05_twoUnsew3_cells", "C05_threeSew3_faces", "C05_threeSew3_cells",
     "C05_threeUnsew3_cells",
+    "C05_oneUnsew3_succeeds", "C05_twoUnsew3_succeeds", "C05_threeUnsew3_succeeds", "C05_threeSew3_vertices_far",
+    "C05_twoSew3_cells_free", "C05_twoSew3_cells_left", "C05_twoSew3_cells_right",
+    "C05_twoUnsew3_cells_free", "C05_twoUnsew3_cells_left", "C05_twoUnsew3_cells_right",
 ]
 
 SPEC = {
-    "lean_modules": ["Honeycomb.Props.C05", "Honeycomb.Props.C05Cells", "Honeycomb.Props.C05Cells2"],
+    "lean_modules": ["Honeycomb.Props.C05", "Honeycomb.Props.C05Cells", "Honeycomb.Props.C05Cells2", "Honeycomb.Props.C05Succ"],
     "required_theorems": REQUIRED_THEOREMS,
     "trusted_base": [
         "Lean 4.33 kernel; axioms propext, Classical.choice, Quot.sound only",
@@ -81,10 +84,22 @@ SPEC = {
         "face walks list exactly these pairs; face/edge/vertex partitions = old ones with the stated pairs united; the collected ids are "
         "cell minima pair by pair; under the proviso the merged-into id is the minimum of the united cell) and for 3-unsew of closed "
         "faces on a mirrored map (C05_threeUnsew3_cells: three_unlink unlinks exactly these pairs, the old partitions are the new ones "
-        "with the pairs united, the face ids split into / from are cell minima). NOT proved: open faces (2-/3-(un)sews), the per-pair "
-        "edge/vertex identifiers inside the 3-unsew chain (they are cell minima of the unlinked map by C05_edgeId3_is_cell_min / "
-        "C05_vertexId3_is_cell_min, not extracted from the chain), and that the cell-level proviso implies the id-level one "
-        "(`Disj`) used by C05_threeSew3_vertices — the two are stated separately; oracle for the rest",
+        "with the pairs united, the face ids split into / from are cell minima). The cell-level proviso (`Far`) implies the id-level one "
+        "(`Disj`): C05_threeSew3_vertices_far (Props/C05Succ.lean) gives the data clause of the 3-sew under the cell-level hypothesis "
+        "alone. Open-face arms of the 2-sew/2-unsew (outside the property's scope): C05_twoSew3_cells_free/_left/_right, "
+        "C05_twoUnsew3_cells_free/_left/_right (general partition through `pairsV2`; ids = minima when the open dart is 3-free). "
+        "NOT proved: open faces for 3-(un)sews, and the per-pair edge identifiers inside the 3-unsew chain (they are cell minima of "
+        "the unlinked map by C05_edgeId3_is_cell_min, not extracted from the chain); oracle for the rest",
+        "'unsew succeeds on any sewn dart of a fully embedded mesh, every resulting vertex has coordinates obtained by splitting': "
+        "PROVED (Props/C05Succ.lean) for configurations without user storages on vertices/edges/faces and a total built-in vertex "
+        "split (`PlainCfg`, e.g. stdCfg 4 0), fc = 0, on well-formed mirrored maps with closed faces: C05_oneUnsew3_succeeds (dart "
+        "1-sewn and not 3-linked to its own successor), C05_twoUnsew3_succeeds (under the proviso: the end points of the edge are four "
+        "different vertex incidences afterwards), C05_threeUnsew3_succeeds (faces 3-linked as a whole and not to themselves — `Sided3`, "
+        "no self glue: C02b shows the guarded API keeps both — three_unlink returns Ok unconditionally; under the proviso on the L "
+        "splits the whole call returns Ok): the call returns Ok and the result is again well-formed, mirrored and Embedded (every "
+        "vertex identifier = cell minimum of an in-use dart holds a value; the values are the halves of split of the old ones by "
+        "`SplitIn` in the *_cells theorems, which apply to these runs). NOT proved: success with user storages whose split can fail, "
+        "and outside the proviso (a vertex taking part in two splits of one call): oracle",
         "ring-closing configurations where a cell takes part in two identifications of one call, and every other such configuration: "
         "correspondence only (the data clause of the oracle is skipped there, counted as skipped-multi)",
         "D13 (1-sew/1-unsew of a dart of a 3-sewn face misplaced the vertex data: vertex_id_transac was not symmetric on the open "
